@@ -1,6 +1,7 @@
 package main
 
 import (
+	"go/token"
 	"go/ast"
 	"fmt"
 	"go/constant"
@@ -340,7 +341,11 @@ func propC14(w *World, r *Report) {
 		r.Unknown("M5", "headers.ReadHeaderInfo", "-", "not found")
 		return
 	}
-	for _, b := range rh.Blocks {
+	var rhBlocks []*ssa.BasicBlock
+	for _, f := range w.funcFamily(rh) {
+		rhBlocks = append(rhBlocks, f.Blocks...)
+	}
+	for _, b := range rhBlocks {
 		for _, in := range b.Instrs {
 			lk, ok := in.(*ssa.Lookup)
 			if !ok {
@@ -582,11 +587,17 @@ func checkReadHeaderInfo(w *World, r *Report, rh *ssa.Function) {
 	r.Check(len(exits) == 1 && exits[0] == want, "M4", "the loop ends at the first blank line (after trimming spaces) and nowhere else", w.Pos(rh.Pos()), strings.Join(exits, " | "))
 	// yaml error returned
 	okY := false
-	for _, bb := range rhOuter.Blocks {
-		if iff, ok := bb.Instrs[len(bb.Instrs)-1].(*ssa.If); ok {
-			if strings.Contains(e.termOf(iff.Cond).String(), "yaml.v1.Unmarshal(") || strings.Contains(e.termOf(iff.Cond).String(), "Unmarshal(") {
-				if ret, ok := bb.Succs[0].Instrs[len(bb.Succs[0].Instrs)-1].(*ssa.Return); ok && e.termOf(ret.Results[0]).String() == "nil" {
-					okY = true
+	for _, f := range w.funcFamily(rhOuter) {
+		for _, bb := range f.Blocks {
+			if iff, ok := bb.Instrs[len(bb.Instrs)-1].(*ssa.If); ok {
+				if strings.Contains(e.termOf(iff.Cond).String(), "yaml.v1.Unmarshal(") || strings.Contains(e.termOf(iff.Cond).String(), "Unmarshal(") {
+					if ret, ok := bb.Succs[0].Instrs[len(bb.Succs[0].Instrs)-1].(*ssa.Return); ok && e.termOf(ret.Results[0]).String() == "nil" {
+						okY = true
+						// when the decode lives in a stage function its error must come back out of ReadHeaderInfo
+						if f != rhOuter {
+							okY = returnsErrorOf(rhOuter, f)
+						}
+					}
 				}
 			}
 		}
@@ -890,6 +901,57 @@ func afterCallTo(w *World, fn *ssa.Function, at ssa.Instruction, target *ssa.Fun
 						return false
 					}
 				}
+			}
+		}
+	}
+	return n > 0
+}
+
+// returnsErrorOf: every call of callee in fn is followed by a test of its last (error) result whose non-nil edge
+// returns that very error.
+func returnsErrorOf(fn, callee *ssa.Function) bool {
+	n := 0
+	for _, b := range fn.Blocks {
+		for _, in := range b.Instrs {
+			c, ok := in.(*ssa.Call)
+			if !ok || c.Call.StaticCallee() != callee {
+				continue
+			}
+			n++
+			good := false
+			nres := callee.Signature.Results().Len()
+			// direct "return callee(...)"
+			if ret, ok := b.Instrs[len(b.Instrs)-1].(*ssa.Return); ok {
+				for _, rv := range ret.Results {
+					if ex, ok := rv.(*ssa.Extract); ok && ex.Tuple == ssa.Value(c) && ex.Index == nres-1 {
+						good = true
+					}
+					if rv == ssa.Value(c) && nres == 1 {
+						good = true
+					}
+				}
+			}
+			if iff, ok := b.Instrs[len(b.Instrs)-1].(*ssa.If); ok {
+				if bo, ok := iff.Cond.(*ssa.BinOp); ok && bo.Op == token.NEQ {
+					var ev ssa.Value = bo.X
+					if cst, isC := bo.X.(*ssa.Const); isC && cst.Value == nil {
+						ev = bo.Y
+					}
+					isErrOfCall := ev == ssa.Value(c) && nres == 1
+					if ex, ok := ev.(*ssa.Extract); ok && ex.Tuple == ssa.Value(c) && ex.Index == nres-1 {
+						isErrOfCall = true
+					}
+					if ret, ok := b.Succs[0].Instrs[len(b.Succs[0].Instrs)-1].(*ssa.Return); ok && isErrOfCall {
+						for _, rv := range ret.Results {
+							if rv == ev {
+								good = true
+							}
+						}
+					}
+				}
+			}
+			if !good {
+				return false
 			}
 		}
 	}
